@@ -124,6 +124,14 @@ def cases(draw):
             for pr in t[1]:
                 if pr[0][1] == name:
                     pr[1] = coll
+        if enums and t[0] == 'm' and name in keys and draw(st.integers(0, 4)) == 0:
+            # an enum-typed requirement on a bool-looking scalar (enums accept those)
+            en = ['ref', draw(st.sampled_from(enums))]
+            ty = draw(st.sampled_from([en, ['opt', en], ['union', en, 'int'], ['list', en]]))
+            t = copy.deepcopy(t)
+            for pr in t[1]:
+                if pr[0][1] == name:
+                    pr[1] = draw(st.sampled_from([T.S('true'), T.S('False'), T.S('red'), T.Q([T.S('true')])]))
         call = ['attr_type', name, ty]
     else:
         lit = draw(st.sampled_from(LITS))
